@@ -25,6 +25,7 @@ def run(chk):
         "exactly '{', '}', '/'."
     )
     chk.not_decided = "that index lookup equals the documented linear rule for all route tables; url_for/_match inverse; match_info values."
+    chk.explanation += " After the defect hunt: a fresh HTTPNotFound per request; matchers are built in the path_safe quoting form; domain sub-apps are not re-indexed; both domain rules lower-case the host."
     ur = repo.func(MOD, "UrlDispatcher.resolve")
     # ---- accumulate ------------------------------------------------------------------------------------------
     g = cfg_of(ur.node)
